@@ -657,10 +657,123 @@ def preconditions(sm, R, rule):
                 continue
             if t.get("trait") in ENV_TRAITS or lib.callee_is(t, "yield_", "yield_all"):
                 R.inconclusive(rule, "closure-with-effect:" + b["name"], "closure %s performs %s; closures are not spliced into the event skeleton" % (b["name"], t.get("callee")))
-    # 4. construction notes
+    # 4. every future that stands for an environment effect is actually polled.  The skeleton records an effect
+    #    where its future is created; `let _ = storage.commit_or_log();` creates it and drops it unpolled —
+    #    the effect never happens.  That is a definite defect of the code, not of the model: VIOLATION, in the
+    #    properties that depend on the kind of effect lost.
+    pid = rule[:3]
+    for u in unused_futures(sm):
+        if any(pid in FUTURE_OWNERS.get(k, ()) for k in u["env"]):
+            R.violation(rule, "future-dropped-unpolled:%s:%s" % (u["fn"], u["callee"]),
+                        "%s creates the future of %s (%s effects: %s) and drops it without polling it: the effect never happens" % (u["fn"], u["callee"], "/".join(sorted(u["env"])), ", ".join(sorted(u["names"]))[:120]), u["loc"])
+    R.holds(rule, "effect-futures-polled", "no future standing for an environment effect is dropped unpolled")
+    # 5. construction notes
     for S in sm._supers.values():
         for note in S.notes:
             R.inconclusive(rule, "skeleton-note:%s" % (note[0],), str(note))
+
+
+FUTURE_OWNERS = {
+    "Storage": ("C07", "C08", "C09", "C14", "C18"),
+    "Policy": ("C05", "C11", "C12"),
+    "Installer": ("C05", "C10", "C13"),
+    "Http": ("C02", "C06", "C10"),
+    "Timer": ("C06", "C12"),
+    "AppSet": ("C09",),
+}
+_UF = {}
+
+
+def _env_summary(sm, b, memo, stack=()):
+    """(set of env kinds, set of effect names) a body can perform, through local callees, closures and async bodies."""
+    bid = b["id"]
+    if bid in memo:
+        return memo[bid]
+    if bid in stack:
+        return (set(), set())
+    bv = BV.of(b)
+    kinds, names = set(), set()
+    for bi, t in bv.calls():
+        if is_logging_span(t["sp"]):
+            continue
+        if t.get("trait") in ENV_TRAITS:
+            kinds.add(ENV_TRAITS[t["trait"]])
+            names.add(t.get("name"))
+        cid = t.get("resolved_id") or t.get("callee_id")
+        for k in (cid, (cid or "") + "::{closure#0}"):
+            cb = sm.w.by_id.get(k)
+            if cb is not None:
+                k2, n2 = _env_summary(sm, cb, memo, stack + (bid,))
+                kinds |= k2
+                names |= n2
+    for cb in lib.closures_of(bv.crate, bid):
+        k2, n2 = _env_summary(sm, cb, memo, stack + (bid,))
+        kinds |= k2
+        names |= n2
+    memo[bid] = (kinds, names)
+    return memo[bid]
+
+
+def _mentions_local(o, L):
+    if isinstance(o, dict):
+        if o.get("l") == L and "k" not in o:
+            return True
+        return any(_mentions_local(v, L) for v in o.values())
+    if isinstance(o, list):
+        return any(_mentions_local(v, L) for v in o)
+    return False
+
+
+def unused_futures(sm):
+    """Calls in the state machine's crate whose result is a future that no statement or terminator ever uses."""
+    k = id(sm)
+    if k in _UF:
+        return _UF[k]
+    out = []
+    memo = {}
+    c = sm.c
+    for b in c.bodies:
+        if "::tests::" in b["id"] or b["id"].endswith("::tests"):
+            continue
+        bv = BV.of(b)
+        for bi, t in bv.calls():
+            dest = t.get("dest")
+            if not dest or dest.get("p") or not isinstance(t.get("destt"), int):
+                continue
+            ty = c.types[t["destt"]]
+            s_ = ty.get("s", "")
+            if not (ty.get("k") == "coroutine" or "Future" in s_):
+                continue
+            L = dest["l"]
+            used = False
+            for bl in bv.blocks:
+                if bl.get("cleanup"):
+                    continue
+                for st in bl["s"]:
+                    if st["k"] == "assign" and _mentions_local(st["r"], L):
+                        used = True
+                tt = bl["t"]
+                if tt["k"] == "call" and (_mentions_local(tt.get("args", []), L) or _mentions_local(tt.get("func"), L)):
+                    used = True
+                if tt["k"] in ("yield", "return") and L == 0:
+                    used = True
+            if used or L == 0:
+                continue
+            kinds, names = set(), set()
+            if t.get("trait") in ENV_TRAITS:
+                kinds.add(ENV_TRAITS[t["trait"]])
+                names.add(t.get("name"))
+            cid = t.get("resolved_id") or t.get("callee_id")
+            for kk in (cid, (cid or "") + "::{closure#0}"):
+                cb = sm.w.by_id.get(kk)
+                if cb is not None:
+                    k2, n2 = _env_summary(sm, cb, memo)
+                    kinds |= k2
+                    names |= n2
+            if kinds:
+                out.append({"fn": b["name"].split("::{closure")[0].split("::")[-1], "callee": t.get("name") or lib.norm(t.get("callee") or ""), "env": kinds, "names": names, "loc": lib.loc(bv, bi)})
+    _UF[k] = out
+    return out
 
 
 def dump_skeleton(sm, S, out, limit=None):
